@@ -184,6 +184,59 @@ func replay(req request) result {
 }
 
 // trace runs a random workload and writes one NDJSON event per call.
+// tail: the cache full of unsaved pages but ONE clean page, which sits at a chosen depth from the cold end (1, 2, every power of
+// two and its neighbours, capacity-1, capacity): the next insertion must find it however long the walk over dirty entries is.
+// Same event format as trace (validated by LruTrace.tla).
+func tail(req request) result {
+	c := storage.VerifNewLRU(req.Cap)
+	f, err := os.Create(req.Out)
+	if err != nil {
+		return result{OK: false, Viol: []string{"cannot write trace: " + err.Error()}}
+	}
+	defer f.Close()
+	w := bufio.NewWriter(f)
+	defer w.Flush()
+	enc := json.NewEncoder(w)
+	enc.Encode(map[string]interface{}{"a": "reset", "cap": req.Cap})
+	n := 0
+	do := func(s step) {
+		r, o := apply(c, s)
+		enc.Encode(map[string]interface{}{"a": s.A, "k": s.K, "v": s.V, "d": s.D, "r": r.R, "hit": r.Hit, "rv": r.V, "ev": r.Ev,
+			"order": o.Order, "dirty": o.Dirty})
+		n++
+	}
+	for k := 1; k <= req.Cap; k++ {
+		do(step{A: "set", K: uint64(k), V: uint64(k)})
+	}
+	for k := 1; k <= req.Cap; k++ {
+		do(step{A: "dirty", K: uint64(k)})
+	}
+	depths := map[int]bool{1: true, 2: true, 3: true, req.Cap - 1: true, req.Cap: true}
+	for p := 4; p < req.Cap; p *= 2 {
+		depths[p-1], depths[p], depths[p+1] = true, true, true
+	}
+	var ds []int
+	for d := range depths {
+		if d >= 1 && d <= req.Cap {
+			ds = append(ds, d)
+		}
+	}
+	sort.Ints(ds)
+	next := uint64(req.Cap + 1)
+	for _, d := range ds {
+		order, _, _ := c.Order() // most recently used first
+		if len(order) != req.Cap {
+			break // the cache lost or refused something: the trace up to here says so
+		}
+		victim := order[len(order)-d]
+		do(step{A: "clean", K: victim})
+		do(step{A: "set", K: next, V: next})
+		do(step{A: "dirty", K: next})
+		next++
+	}
+	return result{OK: true, Step: n}
+}
+
 func trace(req request) result {
 	rng := rand.New(rand.NewSource(req.Seed))
 	c := storage.VerifNewLRU(req.Cap)
@@ -248,6 +301,8 @@ func main() {
 				res = result{OK: false, Viol: []string{"bad request: " + e.Error()}}
 			} else if req.Mode == "trace" {
 				res = trace(req)
+			} else if req.Mode == "tail" {
+				res = tail(req)
 			} else {
 				res = replay(req)
 			}
